@@ -65,6 +65,82 @@ void h_range_parameter(void)
 }
 
 
+/*
+ * ---- all standards at once: _vnacal_new_check_all_frequency_ranges, run by
+ * vnacal_new_set_frequency_vector over the parameters of standards added
+ * BEFORE the frequencies were given.  The collection holds scalar parameters
+ * (valid everywhere) and ONE vector parameter; WHICH handle it has (hence
+ * which bucket and which position in the collection) is enumerated by the
+ * job (-DVEC_INDEX), so "every parameter is checked" is decided bucket by
+ * bucket.
+ */
+#ifndef VEC_INDEX
+#define VEC_INDEX 3
+#endif
+#ifndef ALL_NPARAM
+#define ALL_NPARAM 3
+#endif
+void h_range_all(void)
+{
+    IN(double, fmin);
+    IN(double, fmax);
+    IN(double, pfmin);
+    IN(double, pfmax);
+    double fv[2], cfv[2];
+    double complex gv[2] = { 0.0, 0.0 };
+    vnacal_t *vcp = mk_vcp_min(1);
+    vnacal_parameter_t *prm[ALL_NPARAM];
+    vnacal_new_parameter_t *node[ALL_NPARAM];
+    vnacal_new_t *vnp;
+    static const int handles[] = { 0, VEC_INDEX, 5, 6, 12 };
+    int rc;
+
+    ASSUME(RANGE_PRE(fmin, fmax));
+    ASSUME(pfmin == pfmin && pfmax == pfmax && pfmin <= pfmax);
+    fv[0] = pfmin; fv[1] = pfmax;
+    cfv[0] = fmin; cfv[1] = fmax;
+    vnp = mk_vnp_min(vcp, VNACAL_T8, 2, 2, 2, cfv);
+    ASSUME(_vnacal_new_init_parameter_hash("h", &vnp->vn_parameter_hash) == 0);
+    for (int i = 0; i < ALL_NPARAM; ++i) {
+	if (handles[i] == VEC_INDEX) {
+	    prm[i] = mk_vector_param(vcp, VEC_INDEX, 2, fv, gv);
+	} else {
+	    prm[i] = malloc(sizeof(vnacal_parameter_t));
+	    ASSUME(prm[i] != NULL);
+	    (void)memset((void *)prm[i], 0, sizeof(vnacal_parameter_t));
+	    prm[i]->vpmr_type = VNACAL_SCALAR;
+	    prm[i]->vpmr_hold_count = 1;
+	    prm[i]->vpmr_index = handles[i];
+	    prm[i]->vpmr_vcp = vcp;
+	}
+	node[i] = malloc(sizeof(vnacal_new_parameter_t));
+	ASSUME(node[i] != NULL);
+	(void)memset((void *)node[i], 0, sizeof(vnacal_new_parameter_t));
+	node[i]->vnpr_parameter = prm[i];
+	node[i]->vnpr_cmp = vnp;
+	hash_insert(&vnp->vn_parameter_hash, node[i]);
+    }
+    ghost_err_reset();
+    rc = _vnacal_new_check_all_frequency_ranges("h", vnp, fmin, fmax);
+    REACH("check of all parameters returned");
+    CHECK(rc == 0 || rc == -1, "range check returns 0 or -1");
+    RANGE_POST("a standard added before the frequencies were given", rc == -1, fmin, fmax, pfmin, pfmax);
+    if (rc == -1) {
+	REACH("set of standards refused");
+	CHECK(ghost_err_calls == 1 && ghost_err_category == VNAERR_USAGE &&
+		errno == EINVAL, "refusal reported once as usage error");
+    } else {
+	REACH("set of standards accepted");
+	CHECK(ghost_err_calls == 0, "acceptance is silent");
+    }
+    for (int i = 0; i < ALL_NPARAM; ++i) {
+	free(node[i]);
+	free(prm[i]);
+    }
+    free(vnp->vn_parameter_hash.vnph_table);
+    free(vnp); free(vcp);
+}
+
 /* ---- correlated standards: the sigma grid further restricts the usable range */
 void h_range_correlated(void)
 {
@@ -135,6 +211,53 @@ double _vnacommon_spline_eval(int n, const double *x_vector,
 #else
     return 0.0;
 #endif
+}
+
+/*
+ * One noise point: "If frequencies is 1, then frequency_vector is not used
+ * ... the single noise values given apply to all frequencies" (vnacal_new(3)).
+ * No interpolation is involved, so no range can be missed: the call is
+ * accepted whatever the (ignored) frequency vector holds, and every
+ * calibration frequency gets exactly the given values.
+ */
+void h_m_error_one_point(void)
+{
+    IN(double, fmin);
+    IN(double, fmax);
+    IN(double, pf);
+    IN(double, nf0);
+    IN(double, tr0);
+    IN(bool, with_tr);
+    IN(bool, with_fv);
+    double fv[1], cfv[2], nfv[1], trv[1];
+    vnacal_t *vcp = mk_vcp_min(1);
+    vnacal_new_t *vnp;
+    int rc;
+
+    ASSUME(RANGE_PRE(fmin, fmax));
+    ASSUME(pf == pf);
+    ASSUME(nf0 > 0.0 && tr0 >= 0.0);
+    fv[0] = pf;
+    cfv[0] = fmin; cfv[1] = fmax;
+    nfv[0] = nf0;
+    trv[0] = tr0;
+    vnp = mk_vnp_min(vcp, VNACAL_T8, 2, 2, 2, cfv);
+    ghost_err_reset();
+    rc = vnacal_new_set_m_error(vnp, with_fv ? fv : NULL, 1, nfv, with_tr ? trv : NULL);
+    REACH("one-point set_m_error returned");
+    CHECK(rc == 0 && ghost_err_calls == 0,
+	    "a single noise point applies to all frequencies: accepted, the frequency vector is not used");
+    if (rc == 0 && vnp->vn_m_error_vector != NULL) {
+	for (int i = 0; i < 2; ++i) {
+	    CHECK(SAME_BITS(vnp->vn_m_error_vector[i].vnme_sigma_nf, nf0),
+		    "every calibration frequency gets the given noise floor");
+	    if (with_tr)
+		CHECK(SAME_BITS(vnp->vn_m_error_vector[i].vnme_sigma_tr, tr0),
+			"every calibration frequency gets the given tracking error");
+	}
+    }
+    free(vnp->vn_m_error_vector);
+    free(vnp); free(vcp);
 }
 
 void h_range_m_error(void)
